@@ -11,7 +11,7 @@ Not decided: correctness of the normal equations and of the companion form, exac
 import ast
 
 from ..absint import Interp, CTX, Cst, D, Tup, Lst, elem
-from .. import hd, astq, mapform
+from .. import hd, astq, mapform, symidx
 from ..hd import SEC, expect, events_to_obligations
 from ..program import rel, AnalysisError
 
@@ -247,8 +247,11 @@ def normal_equations(prog, run):
         yo_def = env.get(Yo_name) if Yo_name else None
         sy_rows = any(isinstance(s_, ast.Subscript) and isinstance(s_.value, ast.Name) and s_.value.id == pSy and astq.index_elts(s_) and isinstance(astq.index_elts(s_)[0], ast.Name)
                       and astq.index_elts(s_)[0].id == ov for b_ in loop.body for s_ in ast.walk(b_))
-        first = f"{pSy}.shape[0]" in txt
-        other = f"{pSy}.shape[1]" in txt
+        se_ = symidx.SymEval(prog, fi)
+        ra_ = symidx.range_args(se_, symidx.is_range(prog, fi, loop.iter)) if symidx.is_range(prog, fi, loop.iter) is not None else None
+        stop_ = repr(ra_[1]).replace(" ", "") if ra_ is not None else txt
+        first = stop_ == f"{pSy}.shape[0]" or f"{pSy}.shape[0]" in txt
+        other = stop_ == f"{pSy}.shape[1]" or (f"{pSy}.shape[1]" in txt and not first)
         okL = True if (first and sy_rows) else (False if (other and sy_rows) else None)
         why = f"`for {ov} in {astq.src(loop.iter, 40)}` with {pSy}[{ov}, ...] read in its body" if sy_rows else f"`for {ov} in {astq.src(loop.iter, 40)}`: the row of the spectrum it stands for was not found"
         kr = [c for c in ast.walk(yo_def) if isinstance(c, ast.Call) and astq.callee_name(prog, fi, c) == "numpy.kron"] if yo_def is not None else []
@@ -274,6 +277,11 @@ def check(prog, run):
     reach_ = sorted(q for q in prog.reachable([prog.func("functions.plscf.pLSCF").qual, prog.func("functions.plscf.pLSCF_poles").qual]) if q in prog.functions and not q.startswith("pyoma2.functions.plot"))
     shared_state_rule(prog, run, "R-stateless", reach_, "the model returned depends on the calls made before (another basis-function sign, another order)")
     sign_live(prog, run)
+    run.rule("R-own-option", "the identification hands its options (the basis-function sign, dt, ..) to every helper that repeats them with the same default, wherever what the "
+             "helper computes from them is used (an option left out is the helper's default whatever the caller set)", 0)
+    raw_ = prog.raw
+    roots_ = [raw_.func(q_).qual for q_ in ("functions.plscf.pLSCF", "functions.plscf.pLSCF_poles")]
+    astq.repeated_option_rule(raw_, run, "R-own-option", sorted(q_ for q_ in raw_.reachable(roots_) if q_ in raw_.functions and not q_.startswith("pyoma2.functions.plot")))
     run.rule("R-map", "ac2mp_poly: lambda_c = log(lambda_d)/dt, fn = |lambda_c|/(2 pi), xi = -Re(lambda_c)/|lambda_c|", 3)
     run.rule("R-blank", "Re(lambda) > 0 blanks eigenvalue and eigenvector column alike (same predicate, same array), before fn/xi/phi; inf frequency -> NaN", 5)
     run.rule("O-units", "pLSCF: exp argument dimensionless, alpha ~ S^0, beta ~ S^1 for both basis-function signs; poles ~ 1/s", 8)
